@@ -1351,7 +1351,9 @@ Definition xpred_supported (x : xpred) : bool :=
   | _ => true
   end.
 Record xdecl := mkXDecl { x_name : text; x_src : text; x_static : bool; x_preds : list xpred;
-                          x_levels : list text; x_inherit : bool }.
+                          x_levels : list text; x_inherit : bool;
+                          x_pattern : option text;    (* ninth round: the pattern= argument as given (None = not given) *)
+                          x_path : option text }.     (* the legacy path= argument *)
 Definition xdecl_resolve (pc : list (text * option text) -> list (text * text) -> bool) (e : renv) (x : xdecl)
   : decl * list text * bool :=
   (mkDecl (x_name x) (x_src x) (x_static x) (map (xresolve pc e) (x_preds x)), x_levels x, x_inherit x).
@@ -1402,7 +1404,12 @@ Definition get_xdecl (v : val) : option xdecl :=
   match v with
   | VL [VT n; VT s; st; ps; lv; inh] =>
       olet st := get_bool st in olet ps := get_list_of get_xpred ps in
-      olet lv := get_texts lv in olet inh := get_bool inh in Some (mkXDecl n s st ps lv inh)
+      olet lv := get_texts lv in olet inh := get_bool inh in Some (mkXDecl n s st ps lv inh (Some s) None)
+  | VL [VT n; pt; st; ps; lv; inh; lp] =>
+      olet pt := get_opt get_text pt in olet lp := get_opt get_text lp in
+      olet st := get_bool st in olet ps := get_list_of get_xpred ps in
+      olet lv := get_texts lv in olet inh := get_bool inh in
+      Some (mkXDecl n (match pt with Some s => s | None => [] end) st ps lv inh pt lp)
   | _ => None
   end.
 Definition get_kv (v : val) : option (text * text) :=
@@ -1498,11 +1505,62 @@ Definition with_method (e : renv) (method : text) : renv :=
 Definition step_env (e0 : renv) (se : hstep * option renv) : renv :=
   let e := match snd se with Some e => e | None => e0 end in
   match fst se with HDispatch _ method => with_method e method | _ => e end.
+(* ---- ninth round: (1) the legacy path= argument of add_route; (2) a route name declared several
+   times through config.include: the conflict resolution of the commit keeps the declaration made by
+   the including configurator itself and drops the ones made inside includes -- at ITS OWN place in
+   declaration order -- and refuses everything else. *)
+(* add_route: `if pattern is None: pattern = path` ("if both path and pattern are passed, pattern wins");
+   None = ConfigurationError *)
+Definition legacy_pattern_model (pattern path : option text) : option text :=
+  match pattern with Some p => Some p | None => path end.
+Definition xdecl_effective (lf : option text -> option text -> option text) (x : xdecl) : option xdecl :=
+  match lf (x_pattern x) (x_path x) with
+  | Some p => Some (mkXDecl (x_name x) p (x_static x) (x_preds x) (x_levels x) (x_inherit x) (x_pattern x) (x_path x))
+  | None => None
+  end.
+Fixpoint all_some {A} (l : list (option A)) : option (list A) :=
+  match l with
+  | [] => Some []
+  | Some a :: r => match all_some r with Some t => Some (a :: t) | None => None end
+  | None :: _ => None
+  end.
+(* include paths in the harness's world: a declaration with route-prefix levels is made inside its
+   own chain of includes, one without is made by the root configurator (the empty include path, a
+   prefix of every other).  Among the declarations of one name: a single one -> it stands; exactly
+   one of them top-level -> it overrides the others; anything else conflicts. *)
+Definition x_top (x : xdecl) : bool := l_is_nil (x_levels x).
+Definition x_same (x y : xdecl) : bool := text_eqb (x_name x) (x_name y).
+Definition override_verdict (xs : list xdecl) (x : xdecl) : option bool :=
+  match filter (x_same x) xs with
+  | [_] => Some true
+  | grp => match filter x_top grp with [_] => Some (x_top x) | _ => None end
+  end.
+Fixpoint survivors (all : list xdecl) (i : nat) (xs : list xdecl) : option (list (nat * xdecl)) :=
+  match xs with
+  | [] => Some []
+  | x :: r => match override_verdict all x, survivors all (S i) r with
+              | Some true, Some t => Some ((i, x) :: t)
+              | Some false, Some t => Some t
+              | _, _ => None
+              end
+  end.
+Definition resolve_overrides (xs : list xdecl) : option (list (nat * xdecl)) := survivors xs 0 xs.
+(* route identities are declaration indexes: the survivors are connected in order and carry the
+   index of their declaration *)
+Definition ren_route (f : nat -> nat) (r : route) : route := mkRoute (f (r_id r)) (r_name r) (r_pat r) (r_preds r).
+Definition ren_mapper (f : nat -> nat) (m : mapper) : mapper :=
+  mkMapper (map (ren_route f) (routelist m)) (map (ren_route f) (statics m))
+           (map (fun kv => (fst kv, ren_route f (snd kv))) (routes m)).
+Definition ren_spec (f : nat -> nat) (o : spec_outcome) : spec_outcome :=
+  match o with SMatch r d => SMatch (ren_route f r) d | _ => o end.
+Definition ren_of (idx : list nat) (i : nat) : nat := nth i idx i.
+
 Definition run_C01_y
   (K : pcalls)
   (cf : (text -> res pat) -> mapper -> nat -> decl -> mapper * res unit)
   (callf : (pat -> text -> option matchdict) -> mapper -> text -> option text -> tracedout)
   (nestf : option text -> option text -> option text) (prefixf : option text -> bool -> text -> text)
+  (legacyf : option text -> option text -> option text)
   (routesf : mapper -> bool -> list route) (hasf : mapper -> bool) (getf : mapper -> text -> option route)
   (v : val) : val :=
   ret_or_bad (
@@ -1517,10 +1575,22 @@ Definition run_C01_y
         if negb (forallb xdecl_supported xs)
         then Some (VL [VL [VL (map (fun _ => VI 2%Z) xs); VL []; VL []; put_outcome ONone; VL []]; VL []; VL []; VL []])
         else
-        let ds := xbuild_h K nestf prefixf xs e0 in
-        let ds_spec := xbuild param_call_model nest_prefix_model prefix_pattern_model xs e0 in
-        let '(m, sts) := connect_all_f (cf (parse_pattern_m orc)) empty_mapper 0 ds in
         let router := negb (Z.eqb mode 0) in
+        let cfg_fail := Some (VL [VL [VL []; VL []; VL []; put_outcome OConfigError; VL []]; VL []; VL []; VL []]) in
+        match all_some (map (xdecl_effective legacyf) xs) with
+        | None => cfg_fail        (* neither pattern= nor path=: add_route raises ConfigurationError *)
+        | Some xs =>
+        match (if router then resolve_overrides xs else Some (number 0 xs)) with
+        | None => cfg_fail        (* conflicting declarations of one route name *)
+        | Some surv =>
+        let xs' := map snd surv in
+        let ren := ren_of (map fst surv) in
+        let build := fun e => xbuild_h K nestf prefixf xs' e in
+        let build_spec := fun e => xbuild param_call_model nest_prefix_model prefix_pattern_model
+                                     (match all_some (map (xdecl_effective legacy_pattern_model) xs') with Some l => l | None => xs' end) e in
+        let ds := build e0 in
+        let '(m0, sts) := connect_all_f (cf (parse_pattern_m orc)) empty_mapper 0 ds in
+        let m := ren_mapper ren m0 in
         let cfgerr := router && (negb (forallb is_ok sts) || has_dup (map d_name ds)) in
         let model :=
           if cfgerr
@@ -1533,13 +1603,18 @@ Definition run_C01_y
           if cfgerr then VL []
           else if matcher_pure_ok
                then VL (map (fun se =>
-                         let m_e := fst (connect_all_f (cf (parse_pattern_m orc)) empty_mapper 0
-                                           (xbuild_h K nestf prefixf xs (step_env e0 se))) in
+                         let m_e := ren_mapper ren (fst (connect_all_f (cf (parse_pattern_m orc)) empty_mapper 0
+                                                          (build (step_env e0 se)))) in
                          xhist_item xs (callf (match_pat_m orc)) routesf hasf getf m_e (fst se)) steps)
                else VL [VT (T "drift")] in
-        Some (VL [model; put_spec (spec_traverse_fix xs (spec_request_m orc ds_spec method raw)); hist;
-                  VL (map (fun se => xhist_spec_item xs (spec_parse_m orc) (spec_match_m orc)
-                                       (xbuild param_call_model nest_prefix_model prefix_pattern_model xs (step_env e0 se))
-                                       (fst se)) steps)])
+        Some (VL [model; put_spec (spec_traverse_fix xs (ren_spec ren (spec_request_m orc (build_spec e0) method raw))); hist;
+                  VL (map (fun se =>
+                         match fst se with
+                         | HDispatch raw1 method1 =>
+                             put_spec (spec_traverse_fix xs (ren_spec ren
+                               (spec_request_with (spec_parse_m orc) (spec_match_m orc) (build_spec (step_env e0 se)) method1 raw1)))
+                         | _ => VL []
+                         end) steps)])
+        end end
     | _ => None
     end).
